@@ -415,7 +415,7 @@ struct C08 : Scenario {
       return p;
    }
 
-   size_t search_count(int tier) const override { return tier == 0 ? 6000 : 600000; }
+   size_t search_count(int tier) const override { return tier == 0 ? 30000 : 600000; }
 
    Plan generate(uint64_t run_seed, int tier) const override
    {
